@@ -70,6 +70,9 @@ inductive LookupCase (cfg : Cfg) (req : Req) (now pick : Nat) (db db' : Db) : Bl
       (henum : isEnumerable cfg req.space req.sub = true)
       (hv : v ∈ (db.ids req.space).inSub req.space req.sub) (hid : v.id = pick)
       (hold : (oldestIds ((db.ids req.space).inSub req.space req.sub)).contains pick = true)
+      (hwhy : req.space.subspaceSize req.sub ≤ ((db.ids req.space).inSub req.space req.sub).length ∨
+        (req.space.allIds req.sub).filter
+          (fun i => !((db.ids req.space).inSub req.space req.sub).any (fun r => r.id == i)) = [])
       (hset : setId db pick req.desc now = .ok db') :
       LookupCase cfg req now pick db db' (.done pick (.recycled v))
   | fresh (hmiss : (db.ids req.space).byDesc req.space req.sub req.desc = [])
@@ -109,6 +112,7 @@ theorem lookupBlock_spec {cfg : Cfg} {req : Req} {now pick : Nat} {db db' : Db} 
     · next henum =>
       split at h
       · -- full
+        next hge =>
         split at h
         · next v hv =>
           obtain ⟨hvm, hvid⟩ := find?_id_some hv
@@ -117,7 +121,7 @@ theorem lookupBlock_spec {cfg : Cfg} {req : Req} {now pick : Nat} {db db' : Db} 
             split at h
             · next db'' hset =>
               injection h with h; injection h with h1 h2; subst h1 h2
-              exact .recycled v hmiss henum hvm hvid hold hset
+              exact .recycled v hmiss henum hvm hvid hold (Or.inl hge) hset
             · cases h
           · cases h
         · cases h
@@ -140,6 +144,7 @@ theorem lookupBlock_spec {cfg : Cfg} {req : Req} {now pick : Nat} {db db' : Db} 
               · cases h
             · cases h
           · -- loop-oldest
+            next hnf =>
             split at h
             · next v hv =>
               obtain ⟨hvm, hvid⟩ := find?_id_some hv
@@ -148,7 +153,7 @@ theorem lookupBlock_spec {cfg : Cfg} {req : Req} {now pick : Nat} {db db' : Db} 
                 split at h
                 · next db'' hset =>
                   injection h with h; injection h with h1 h2; subst h1 h2
-                  exact .recycled v hmiss henum hvm hvid hold hset
+                  exact .recycled v hmiss henum hvm hvid hold (Or.inr (by simpa using hnf)) hset
                 · cases h
               · cases h
             · cases h
